@@ -31,7 +31,7 @@ theorem entryFacts_of_map {t t' : Table} {op : Op} {r : Res} {F : Fam → Net ×
   | some d =>
     rw [hl] at hxm
     obtain ⟨x0, h0, h1⟩ := hx f (n, d) (alookup_some_mem hl) x hxm
-    exact ⟨x0, h0, h1, hrep f n x0⟩
+    exact ⟨x0, h0, h1, Or.inr (hrep f n x0)⟩
 
 /-! ## `restale` / `restale_llgr` -/
 
